@@ -344,6 +344,12 @@ def packBits (l : List Bool) : Bytes :=
     bitsByte (l.getD (8 * k) false) (l.getD (8 * k + 1) false) (l.getD (8 * k + 2) false) (l.getD (8 * k + 3) false)
       (l.getD (8 * k + 4) false) (l.getD (8 * k + 5) false) (l.getD (8 * k + 6) false) (l.getD (8 * k + 7) false))
 
+/-- Spec of a section bit vector, used by the model driver to accept a generator that hands out the right column where the code
+    as written refuses: byte `k` packs (MSB first) bit `i` of the integers of blooms `8k … 8k+7` (absent blooms count as zero). -/
+def specColumn (blooms : List Bytes) (size i : Nat) : Bytes :=
+  let arr := blooms.toArray
+  packBits ((List.range size).map (fun n => ((arr[n]?).map (fun b => (beNat b).testBit i)).getD false))
+
 /-- `bitsetEncodeBytes` (first argument = fuel ≥ length; the bitset is 8 times shorter). -/
 def bitsetEncodeF : Nat → Bytes → Bytes
   | 0, _ => []
